@@ -14,11 +14,11 @@ NONTRIVIAL_FLOOR = 0.5
 RULE = ('Hypothesis-generated small libraries (1..3 contigs, 1..10 molecule specs) x method nla/chic x mode single / '
         '--multiprocess. For every library ALL step boundaries are enumerated as failure points: molecule k of n at '
         'iteration, write_tags and write_pysam, read-group header rewrite, sort, every pysam.index call, each worker job, '
-        'merge, temp-folder cleanup; kinds: exception, KeyboardInterrupt, and os._exit(137) in a forked child (what a kill '
+        'merge, temp-folder cleanup; kinds: exception, OSError family (ESTALE / ENOENT / EACCES) inside the tagging steps, KeyboardInterrupt, and os._exit(137) in a forked child (what a kill '
         'at that boundary leaves on disk). After each run <output>.status.txt is compared with the output: success text '
         'only if the BAM exists, reads to EOF, is coordinate sorted, indexed and holds every input record (C05 oracle); a '
         'run that was made to fail must not report success (a swallowed cleanup failure may, if the output is valid). '
-        'Additionally a history: a successful run followed by a run to the same output path that fails before tagging starts (invalid method, -region_start without -region_end). One evaluation = one library with all its failure points; non-trivial: a failure point after the first record '
+        'Additionally samtools sort failing on every attempt (no output / output without EOF block / output of an earlier run on a smaller input still present) and a history: a successful run followed by a run to the same output path that fails before tagging starts (invalid method, -region_start without -region_end). One evaluation = one library with all its failure points; non-trivial: a failure point after the first record '
         'was written and before the pipeline end was exercised (always true when the library yields >=2 molecules).')
 ASSUMPTIONS = ['kills are modelled at step boundaries, not inside htslib', 'a dying pool worker makes multiprocessing.Pool wait forever (liveness, not covered): worker failures are exceptions',
                'pysam/htslib trusted']
@@ -58,6 +58,14 @@ def install(point, kind, counter):
     def fail():
         if kind == 'exception':
             raise Injected('injected failure at %s:%s' % (name, k))
+        if kind == 'oserror':
+            # what a stale file handle / vanished file / full disk looks like to the pipeline
+            import errno
+            if k % 3 == 0:
+                raise OSError(errno.ESTALE, 'Stale file handle (injected at %s:%s)' % (name, k))
+            if k % 3 == 1:
+                raise FileNotFoundError(errno.ENOENT, 'No such file or directory (injected at %s:%s)' % (name, k))
+            raise PermissionError(errno.EACCES, 'Permission denied (injected at %s:%s)' % (name, k))
         if kind == 'interrupt':
             raise KeyboardInterrupt()
         os._exit(137)
@@ -168,6 +176,49 @@ def run_once(case, d, point, kind):
     return raised, tagrun.status_text(bam_out), counter
 
 
+def run_sort_failure(case, d, variant, contigs, records):
+    """Every attempt of samtools sort fails (a persistent condition such as a full disk). variant: 'no-output' (sort dies
+    before it creates the output), 'partial-output' (the sorted file is written but cut at a BGZF block boundary: its EOF
+    block is missing), 'stale-output' (no output, but the output of an earlier run on a SMALLER input is still at the
+    output path). Returns (raised, status)."""
+    spec, run = case['spec'], case['run']
+    bam_in = os.path.join(d, 'in.bam')
+    bam_out = os.path.join(d, 'out.bam')
+    for p in os.listdir(d):
+        if p not in ('in.bam', 'in.bam.bai'):
+            q = os.path.join(d, p)
+            shutil.rmtree(q, ignore_errors=True) if os.path.isdir(q) else os.remove(q)
+    kw = dict(multiprocess=run['mode'] == 'multi', threads=run['threads'], pool='det', order=run['order'])
+    if variant == 'stale-output':
+        small = os.path.join(d, 'small.bam')
+        write_bam(small, contigs, records[:max(1, len(records) // 3)])
+        try:
+            tagrun.run_tagger(small, bam_out, run['method'], **kw)
+        except BaseException:
+            return 'setup-failed', None
+    real_sort = pysam.sort
+    from pysam.utils import SamtoolsError
+
+    def failing_sort(*args, **kwargs):
+        if variant == 'partial-output':
+            real_sort(*args, **kwargs)
+            target = args[list(args).index('-o') + 1]
+            size = os.path.getsize(target)
+            if size > 28:
+                with open(target, 'r+b') as f:
+                    f.truncate(size - 28)       # drop the BGZF EOF block
+        raise SamtoolsError('samtools sort: failed to write: No space left on device (injected)')
+    pysam.sort = failing_sort
+    raised = None
+    try:
+        tagrun.run_tagger(bam_in, bam_out, run['method'], **kw)
+    except BaseException as e:
+        raised = type(e).__name__
+    finally:
+        pysam.sort = real_sort
+    return raised, tagrun.status_text(bam_out)
+
+
 def output_valid(case, d, contigs, records, truth):
     """C05 oracle on d/out.bam; returns list of problems."""
     o = Outcome()
@@ -210,9 +261,7 @@ def eval_case(case):
         n_runs = 0
         mid = False
         for point in points:
-            for kind in ('exception', 'interrupt', 'kill'):
-                if point[0] == 'cleanup' and kind == 'kill':
-                    pass
+            for kind in ('exception', 'interrupt', 'kill') + (('oserror',) if point[0] in ('iter', 'tags', 'write', 'readgroups', 'job') else ()):
                 raised, status, _ = run_once(case, d, point, kind)
                 n_runs += 1
                 if status == 'TIMEOUT':
@@ -233,6 +282,18 @@ def eval_case(case):
                     out.bad('%s:no-status-file' % where, 'failure at %r' % (point,))
                 if len(out.violations) > 8:
                     break
+        # ---- samtools sort fails on every attempt
+        for variant in ('no-output', 'partial-output', 'stale-output'):
+            raised, status = run_sort_failure(case, d, variant, contigs, records)
+            n_runs += 1
+            if raised == 'setup-failed':
+                continue
+            if status == SUCCESS:
+                probs = output_valid(case, d, contigs, records, truth)
+                out.bad('%s:sort-fails-every-attempt:%s:success-status' % (mode, variant),
+                        'all sort attempts failed (raised=%r), status says success; output: %s' % (raised, probs[0][1][:200] if probs else 'valid (of which run?)'))
+            elif status is None:
+                out.bad('%s:sort-fails-every-attempt:%s:no-status-file' % (mode, variant), 'raised=%r' % raised)
         # ---- history: a successful run followed by a run to the SAME output path that fails before tagging starts
         # (argument mistakes); the status of the first run must not survive
         raised, status, _ = run_once(case, d, ('none', -1), 'exception')
